@@ -1,5 +1,6 @@
 CONSTANTS WaitMul = 3
  WaitAdd = 16
+ StaleCap = 100000
 SPECIFICATION TSpec
 POSTCONDITION Consumed
 CHECK_DEADLOCK FALSE
